@@ -16,6 +16,8 @@
 //	       ratio >= 1000 and payloads of L-1, L, L+1 bytes: never more than L bytes returned.
 //	mp     multipart: server pre-parse / on demand, Request.MultipartFormWithLimit on plain, gzip-encoded
 //	       and streamed bodies.
+//	hist   per-request limits (Server.HeaderReceived -> RequestConfig.MaxRequestBodySize) on histories of 2-4
+//	       requests on one connection: every request is bound by the limit applicable to THAT request.
 //	alloc  allocation watchdog (sequential, quiet process): runtime.MemStats.TotalAlloc delta around one
 //	       single-threaded call against 8*L + 32 MiB, with bombs that expand to 256 MiB and peers that
 //	       merely declare GiB sizes.
@@ -55,6 +57,7 @@ const (
 	baseClient = 4_000_000
 	baseUnz    = 5_000_000
 	baseMP     = 6_000_000
+	baseHist   = 7_000_000
 
 	defaultLimit = 4 << 20 // DefaultMaxRequestBodySize
 	bombSize     = 256 << 20
@@ -202,6 +205,12 @@ type call struct {
 
 // serve runs one scripted connection through a Server and returns what the handler saw.
 func serve(srv *fasthttp.Server, script []byte, frag func(int) int, keepBody bool, wantMP bool) (calls []call, conn *netx.Scripted, panicked any, finished bool) {
+	return serveWith(srv, script, frag, keepBody, wantMP, nil)
+}
+
+// serveWith: onStarve (optional) supplies more client bytes each time the server has consumed
+// everything and asks for more (a keep-alive client that sends its next request only then).
+func serveWith(srv *fasthttp.Server, script []byte, frag func(int) int, keepBody bool, wantMP bool, onStarve func() []byte) (calls []call, conn *netx.Scripted, panicked any, finished bool) {
 	var mu sync.Mutex
 	srv.Handler = func(ctx *fasthttp.RequestCtx) {
 		c := call{path: string(ctx.Path())}
@@ -226,6 +235,7 @@ func serve(srv *fasthttp.Server, script []byte, frag func(int) int, keepBody boo
 	}
 	srv.Logger = nullLogger{}
 	conn = netx.NewScripted(script, frag)
+	conn.OnStarve = onStarve
 	finished = mon.Watchdog(120*time.Second, func() {
 		defer func() { panicked = recover() }()
 		srv.ServeConn(conn) //nolint:errcheck
@@ -1272,6 +1282,263 @@ func runMP(r *mon.Run) {
 	}
 }
 
+// ---------------------------------------------------------------- hist (per-request limits on one connection)
+
+type histReq struct {
+	grant   int // RequestConfig.MaxRequestBodySize returned by HeaderReceived for this request (0: zero config)
+	applic  int // the limit that applies to this request
+	bodyLen int
+	enc     string
+	body    []byte
+	wire    []byte
+}
+
+// runHist: histories of 2-4 requests on one keep-alive / pipelined connection. Server.HeaderReceived
+// returns RequestConfig{MaxRequestBodySize: n} for PRNG-chosen requests (n above or below the server-wide
+// limit) and the zero RequestConfig for the others; a request with the zero config is bound by
+// Server.MaxRequestBodySize (or the 4 MiB default), whatever an earlier request on the connection was granted.
+func runHist(r *mon.Run) {
+	n := r.N(2500, 60_000)
+	mon.Parallel(n, 0, func(i int) {
+		ci := baseHist + i
+		if !r.Want(ci) {
+			return
+		}
+		rnd := r.Rand("hist", i)
+		S := []int{1, 16, 100, 1000, 4096, 20_000}[rnd.Intn(6)]
+		cfgS := S
+		if rnd.Intn(150) == 0 {
+			cfgS, S = 0, defaultLimit
+		}
+		k := 2 + rnd.Intn(3)
+		reqs := make([]*histReq, k)
+		firstOver := -1
+		maxEarlierGrant := 0
+		leakProbe := false // a request without a grant carries a body above S but within an earlier grant
+		for j := range reqs {
+			q := &histReq{}
+			reqs[j] = q
+			switch rnd.Intn(5) {
+			case 0, 1: // zero config
+			case 2: // raised
+				q.grant = S + 1 + rnd.Intn(3*S+50)
+				if q.grant > S+60_000 {
+					q.grant = S + 1 + rnd.Intn(60_000)
+				}
+			case 3: // lowered (or equal)
+				q.grant = 1 + rnd.Intn(S)
+			default:
+				q.grant = []int{1, 2, 15, 4096, 4097, 70_000}[rnd.Intn(6)]
+			}
+			q.applic = S
+			if q.grant > 0 {
+				q.applic = q.grant
+			}
+			A := q.applic
+			switch rnd.Intn(8) {
+			case 0:
+				q.bodyLen = 0
+			case 1:
+				q.bodyLen = A - 1
+			case 2, 3:
+				q.bodyLen = A
+			case 4:
+				q.bodyLen = A + 1
+			case 5:
+				q.bodyLen = rnd.Intn(A + 1)
+			case 6:
+				q.bodyLen = A + 1 + rnd.Intn(200)
+			default:
+				// the scenario this family exists for: within what an EARLIER request was granted, above what applies now
+				if maxEarlierGrant > A {
+					q.bodyLen = A + 1 + rnd.Intn(maxEarlierGrant-A)
+				} else {
+					q.bodyLen = A
+				}
+			}
+			if q.bodyLen < 0 {
+				q.bodyLen = 0
+			}
+			if firstOver >= 0 && q.bodyLen > 70_000 {
+				q.bodyLen = 10 // never looked at: keep the script small
+			}
+			if q.grant == 0 && q.bodyLen > A && q.bodyLen <= maxEarlierGrant && firstOver < 0 {
+				leakProbe = true
+			}
+			q.enc = []string{"fixed", "chunked"}[rnd.Intn(2)]
+			q.body = make([]byte, q.bodyLen)
+			fill(q.body, rnd)
+			var w bytes.Buffer
+			w.Grow(q.bodyLen + 256)
+			fmt.Fprintf(&w, "POST /r%d HTTP/1.1\r\nHost: c07\r\n", j)
+			if q.grant > 0 {
+				fmt.Fprintf(&w, "X-Grant: %d\r\n", q.grant)
+			}
+			if q.enc == "fixed" {
+				fmt.Fprintf(&w, "Content-Length: %d\r\n\r\n", q.bodyLen)
+				w.Write(q.body)
+			} else {
+				w.WriteString("Transfer-Encoding: chunked\r\n\r\n")
+				mc := []int{1, 16, 300, 5000, 1 << 20}[rnd.Intn(5)]
+				if q.bodyLen > 50_000 && mc < 300 {
+					mc = 5000
+				}
+				w.Write(chunked(q.body, rnd, mc))
+			}
+			q.wire = w.Bytes()
+			if firstOver < 0 && q.bodyLen > A {
+				firstOver = j
+			}
+			if q.grant > maxEarlierGrant {
+				maxEarlierGrant = q.grant
+			}
+		}
+		srv := &fasthttp.Server{MaxRequestBodySize: cfgS, ReduceMemoryUsage: rnd.Intn(4) == 0,
+			HeaderReceived: func(h *fasthttp.RequestHeader) fasthttp.RequestConfig {
+				if v := h.Peek("X-Grant"); len(v) > 0 {
+					g := 0
+					fmt.Sscan(string(v), &g) //nolint:errcheck
+					return fasthttp.RequestConfig{MaxRequestBodySize: g}
+				}
+				return fasthttp.RequestConfig{}
+			}}
+		// delivery: everything pipelined, or each request only once the server has consumed the previous one
+		lazy := rnd.Intn(2) == 0
+		var script []byte
+		var onStarve func() []byte
+		if lazy {
+			next := 1
+			script = append(script, reqs[0].wire...)
+			onStarve = func() []byte {
+				if next < len(reqs) {
+					next++
+					return reqs[next-1].wire
+				}
+				if next == len(reqs) {
+					next++
+					return []byte(followUp)
+				}
+				return nil
+			}
+		} else {
+			for _, q := range reqs {
+				script = append(script, q.wire...)
+			}
+			script = append(script, followUp...)
+		}
+		total := len(followUp)
+		for _, q := range reqs {
+			total += len(q.wire)
+		}
+		frag, fname := fragFor(rnd, total)
+		calls, conn, panicked, fin := serveWith(srv, script, frag, true, false, onStarve)
+		var desc []string
+		for _, q := range reqs {
+			desc = append(desc, fmt.Sprintf("grant=%d applicable=%d body=%d %s", q.grant, q.applic, q.bodyLen, q.enc))
+		}
+		payload := map[string]any{"server_limit": cfgS, "effective_server_limit": S, "requests": desc, "first_over_limit": firstOver, "lazy_delivery": lazy, "frag": fname}
+		if !fin {
+			r.Inconclusive(fmt.Sprintf("hist case %d: ServeConn did not return", ci))
+			return
+		}
+		if panicked != nil {
+			r.Violation(ci, "panic", fmt.Sprintf("ServeConn panicked: %v", panicked), payload)
+			return
+		}
+		grants := ""
+		for _, q := range reqs {
+			switch {
+			case q.grant == 0:
+				grants += "0"
+			case q.grant > S:
+				grants += "+"
+			default:
+				grants += "-"
+			}
+		}
+		r.Case(fmt.Sprintf("hist/k=%d/grants=%s/firstover=%d/leakprobe=%t/lazy=%t/frag=%s", k, grants, firstOver, leakProbe, lazy, fname), strings.ContainsAny(grants, "+-") && strings.Contains(grants, "0"))
+		r.Event("hist_cases", 1)
+		if leakProbe {
+			r.Event("hist_earlier_grant_probes", 1)
+		}
+		// 1. whatever a handler received is within the limit applicable to THAT request
+		served := 0
+		for _, c := range calls {
+			var j int
+			if _, err := fmt.Sscanf(c.path, "/r%d", &j); err != nil || j < 0 || j >= k {
+				continue
+			}
+			q := reqs[j]
+			if c.bodyLen > q.applic {
+				key := "hist-handler-got-over-limit-body"
+				if q.grant == 0 {
+					key = "hist-earlier-grant-outlives-its-request"
+				}
+				r.Violation(ci, key, fmt.Sprintf("request %d (HeaderReceived returned MaxRequestBodySize %d, applicable limit %d) reached the handler with %d body bytes; history: %v", j, q.grant, q.applic, c.bodyLen, desc), payload)
+			} else if bytes.Equal(c.body, q.body) {
+				served++
+			} else {
+				r.Violation(ci, "hist-accepted-body-corrupted", fmt.Sprintf("request %d: handler saw %d bytes, %d sent, contents differ", j, c.bodyLen, q.bodyLen), payload)
+			}
+		}
+		resps, err := parseResponses(conn.Written(), k+2)
+		if err != nil {
+			r.Violation(ci, "hist-response-unparseable", fmt.Sprintf("%v; wire %s", err, mon.Short(conn.Written(), 300)), payload)
+			return
+		}
+		if firstOver < 0 {
+			if served == k {
+				r.Event("hist_all_within_limit_served", 1)
+			} else {
+				r.Event("hist_within_limit_rejected", 1)
+			}
+			return
+		}
+		// 2. the first over-limit request: error response + Connection: close + closed; nothing after it is served
+		r.Event("hist_over_limit_checked", 1)
+		for _, c := range calls {
+			var j int
+			_, e := fmt.Sscanf(c.path, "/r%d", &j)
+			if (e == nil && j > firstOver) || c.path == "/next" {
+				r.Violation(ci, "hist-over-limit-connection-kept", fmt.Sprintf("handler invoked for %s after over-limit request %d; history: %v", c.path, firstOver, desc), payload)
+			}
+		}
+		if served < firstOver {
+			r.Event("hist_skipped_earlier_request_not_served", 1)
+			return
+		}
+		switch {
+		case len(resps) <= firstOver:
+			r.Violation(ci, "hist-over-limit-no-error-response", fmt.Sprintf("%d responses for a history whose request %d is over its limit; history: %v", len(resps), firstOver, desc), payload)
+		case resps[firstOver].status < 400:
+			r.Violation(ci, "hist-over-limit-no-error-response", fmt.Sprintf("request %d (applicable limit %d, body %d) answered with %d; history: %v", firstOver, reqs[firstOver].applic, reqs[firstOver].bodyLen, resps[firstOver].status, desc), payload)
+		default:
+			if !resps[firstOver].close {
+				r.Violation(ci, "hist-over-limit-no-connection-close", fmt.Sprintf("error response %d lacks Connection: close", resps[firstOver].status), payload)
+			}
+			if len(resps) > firstOver+1 {
+				r.Violation(ci, "hist-over-limit-connection-kept", fmt.Sprintf("%d responses after the error response", len(resps)-firstOver-1), payload)
+			}
+			if readsAfterLastWrite(conn.Events()) {
+				r.Violation(ci, "hist-over-limit-connection-kept", "server read from the connection again after writing the error response", payload)
+			}
+		}
+		if r.WantSample() && leakProbe {
+			st := 0
+			if len(resps) > firstOver {
+				st = resps[firstOver].status
+			}
+			r.Sample(map[string]any{"monitor": "hist", "server_limit": S, "history": desc, "first_over_limit": firstOver, "status": st})
+		}
+	})
+	if !r.Replaying() {
+		r.Require("hist_cases", n)
+		r.Require("hist_over_limit_checked", n/4)
+		r.Require("hist_all_within_limit_served", n/10)
+		r.Require("hist_earlier_grant_probes", n/40)
+	}
+}
+
 // ---------------------------------------------------------------- alloc watchdog
 
 func totalAlloc() uint64 {
@@ -1405,7 +1672,7 @@ func runAlloc(r *mon.Run, bs *bombSet) {
 func TestC07(t *testing.T) {
 	r := mon.Start(t, "C07")
 	defer r.Finish()
-	r.Rule("L from {1,2,15,16,100,4095,4096,4097,1 MiB,4 MiB+1} plus random and the default (MaxRequestBodySize<=0 => 4 MiB); body size from {0,L-1,L,L+1,L+k,<=L} or merely declared (Content-Length / chunk size from L+1 to 2^63-1 and unrepresentable); encodings fixed / chunked (random split, extensions, zero padding, a declared-huge chunk after a valid one) / identity-until-close; delivery fragmentation 1…4096 bytes; families: srv (ServeConn on a scripted conn + follow-up request), head (ReadBufferSize 16…8192 and default × head of exactly RBS-1/RBS/RBS+1/…, first or second on the connection), read (Request/Response.ReadLimitBody), client (HostClient.MaxResponseBodySize), unz (4 codecs × Request/Response × Body*WithLimit/BodyUncompressedWithLimit on 256 MiB and 8 MiB bombs and on payloads of L-1/L/L+1 bytes), mp (multipart via server pre-parse/on demand/chunked and MultipartFormWithLimit on plain/gzip/streamed bodies), alloc (sequential TotalAlloc watchdog). distinct = feature vectors (family, encoding, size relation, limit class, fragmentation, …); non-trivial = size >= L or declared-huge, or any bomb/multipart/alloc case")
+	r.Rule("L from {1,2,15,16,100,4095,4096,4097,1 MiB,4 MiB+1} plus random and the default (MaxRequestBodySize<=0 => 4 MiB); body size from {0,L-1,L,L+1,L+k,<=L} or merely declared (Content-Length / chunk size from L+1 to 2^63-1 and unrepresentable); encodings fixed / chunked (random split, extensions, zero padding, a declared-huge chunk after a valid one) / identity-until-close; delivery fragmentation 1…4096 bytes; families: srv (ServeConn on a scripted conn + follow-up request), head (ReadBufferSize 16…8192 and default × head of exactly RBS-1/RBS/RBS+1/…, first or second on the connection), read (Request/Response.ReadLimitBody), client (HostClient.MaxResponseBodySize), unz (4 codecs × Request/Response × Body*WithLimit/BodyUncompressedWithLimit on 256 MiB and 8 MiB bombs and on payloads of L-1/L/L+1 bytes), mp (multipart via server pre-parse/on demand/chunked and MultipartFormWithLimit on plain/gzip/streamed bodies), hist (2-4 requests on one pipelined or keep-alive connection, Server.HeaderReceived granting a raised/lowered MaxRequestBodySize to PRNG-chosen requests and the zero RequestConfig to the others, bodies just under/over the limit applicable to each request, incl. bodies that fit an earlier grant but not the current limit), alloc (sequential TotalAlloc watchdog). distinct = feature vectors (family, encoding, size relation, limit class, fragmentation, …); non-trivial = size >= L or declared-huge, or any bomb/multipart/alloc case")
 	r.Assume("judged against L exactly: what a handler/caller receives on success and what *WithLimit helpers return; on the error path the body buffer may hold L plus one I/O buffer (max(bufio size, 4096)) because the identity reader notices the excess only after a read; the test's readers never deliver more than 4096 bytes per Read")
 	r.Assume("acceptance of bodies <= L is not demanded by C07; it is counted (…_within_limit_accepted / …_rejected) and required to occur so that the bound is not vacuous; an accepted body must equal the sent body")
 	r.Assume("unrepresentable sizes (>= 2^63, 16+ hex digits) may fail with any error; for every representable over-limit size the client-side error must satisfy errors.Is(err, ErrBodyTooLarge); the server answers with any status >= 400 (fasthttp uses 400, not 413)")
@@ -1433,6 +1700,7 @@ func TestC07(t *testing.T) {
 	phase("client", func() { runClient(r) })
 	phase("unz", func() { runUnz(r, bs) })
 	phase("mp", func() { runMP(r) })
+	phase("hist", func() { runHist(r) })
 	r.Set("phase_seconds", phases)
 	notesMu.Lock()
 	r.Set("observed_not_judged", notes)
